@@ -112,7 +112,14 @@ impl Check for C07 {
          and nested). Each input goes through real decode, kind, len()+skip, split-off as opaque \
          value, prefix-length measurement and unknown-field / unknown-variant capture + \
          re-serialization, all compared with the reference decoder/skipper, under a panic monitor \
-         and a peak-allocation monitor (bound 512*len + 64 KiB). distinct = FNV hash of the \
+         and a peak-allocation monitor (bound 512*len + 64 KiB). Every third case is a typed \
+         decode: one of 28 static Rust target types (MaybeUninit-backed arrays [U; N] / [u8; N] \
+         incl. N = 0 and nested, std collections, tuples, Option, Result) fed conforming values, \
+         structurally perturbed values (wrong length, wrong-kind element in the middle, duplicate \
+         / missing / unknown tuple fields, duplicate keys), values of other shapes and byte-level \
+         mutants; accepted iff the reference value conforms to the target's shape, re-encoding \
+         must give the normal form, and a live counter on the element type checks that every \
+         constructed element is dropped exactly once (also when decoding fails half-way). distinct = FNV hash of the \
          input; non-trivial = at least 2 bytes and first byte a valid kind"
     }
     fn assumptions(&self) -> Vec<String> {
@@ -123,11 +130,20 @@ impl Check for C07 {
     }
     fn total_cases(&self, tier: Tier) -> u64 {
         match tier {
-            Tier::Quick => 60_000,
-            Tier::Thorough => 6_000_000,
+            Tier::Quick => 90_000,
+            Tier::Thorough => 9_000_000,
         }
     }
     fn run_case(&self, ctx: &Ctx, idx: u64, out: &mut Outcome) {
+        // every third case goes to the typed-decode lab (checks/typed.rs); interleaved so that
+        // every slice of the case range (sanitizer shards) contains both kinds
+        // (under Miri two out of three: a typed decode is one call, a dynamic case is up to 160)
+        if idx % 3 == 2 || (ctx.mode == "miri" && idx % 3 == 1) {
+            out.eval();
+            super::typed::run_case(ctx, idx / 3, out);
+            return;
+        }
+        let idx = (idx / 3) * 2 + idx % 3;
         let (inputs, label, _r) = gen_input(ctx.seed, idx);
         for (j, b) in inputs.iter().enumerate() {
             probe(ctx, idx, j, label, b, out);
@@ -135,7 +151,7 @@ impl Check for C07 {
     }
     fn gates(&self, _tier: Tier, m: &Outcome) -> Vec<String> {
         let mut unmet = Vec::new();
-        for key in ["decode_ok", "decode_err", "skip_ok_decode_err_utf8", "captured_structs", "captured_enums", "prefix_ok"] {
+        for key in ["decode_ok", "decode_err", "skip_ok_decode_err_utf8", "captured_structs", "captured_enums", "prefix_ok", "typed_accepted", "typed_rejected", "typed_failed_after_constructing_elements"] {
             if m.counters.get(key).copied().unwrap_or(0) == 0 {
                 unmet.push(format!("observation class `{}` never occurred", key));
             }
